@@ -35,6 +35,9 @@ impl C01 {
                 l.push(L::Set { admin: false, key: k, val: v });
             }
         }
+        // integers next to both ends of the i32 range: an increment across either end is refused
+        l.push(L::Set { admin: false, key: K1, val: "2147483647" });
+        l.push(L::Set { admin: false, key: K1, val: "-2147483647" });
         l.push(L::Set { admin: true, key: KS, val: "s1" });
         l.push(L::Set { admin: false, key: KS, val: "s2" });
         for k in [K1, K2] {
